@@ -102,6 +102,8 @@ type Exec struct {
 	inRes    [][]*types.Var
 	spawns   bool
 	safety   bool
+	rawArgs  []Val          // arguments of the call being evaluated, before conversion to the parameter types
+	curRaw   map[string]Val // the same, by contract parameter name
 	aliases  map[types.Object]*lval // map-typed locals bound to a map stored elsewhere (reference semantics)
 }
 
@@ -1165,7 +1167,7 @@ func (x *Exec) loopSpec(pos token.Pos, fingerprint string) (int, *LoopSpec) {
 	}
 	sp := x.contract.Loops[n]
 	if sp != nil && sp.Fingerprint != "" {
-		if normWS(sp.Fingerprint) != normWS(fingerprint) {
+		if fpKey(sp.Fingerprint) != fpKey(fingerprint) {
 			panic(unsupported(fmt.Sprintf("stale loop fingerprint for loop %d: contract says %q, code has %q", n, sp.Fingerprint, fingerprint)))
 		}
 	}
@@ -1173,6 +1175,36 @@ func (x *Exec) loopSpec(pos token.Pos, fingerprint string) (int, *LoopSpec) {
 }
 
 func normWS(s string) string { return strings.Join(strings.Fields(s), " ") }
+
+// fpKey: what a loop fingerprint is compared on. A range loop is identified by its range expression;
+// a for loop by the identifiers of its condition (so that a changed bound or operator keeps the loop
+// under its contract and is judged by the invariants, while a different loop is reported as stale).
+func fpKey(fp string) string {
+	fp = normWS(fp)
+	if strings.HasPrefix(fp, "range ") {
+		return fp
+	}
+	var ids []string
+	seen := map[string]bool{}
+	cur := ""
+	flush := func() {
+		if cur != "" && !(cur[0] >= '0' && cur[0] <= '9') && cur != "for" && cur != "len" && cur != "nil" && cur != "true" && cur != "false" && !seen[cur] {
+			seen[cur] = true
+			ids = append(ids, cur)
+		}
+		cur = ""
+	}
+	for _, r := range fp {
+		if r == '_' || r >= 'a' && r <= 'z' || r >= 'A' && r <= 'Z' || r >= '0' && r <= '9' {
+			cur += string(r)
+		} else {
+			flush()
+		}
+	}
+	flush()
+	sort.Strings(ids)
+	return "for " + strings.Join(ids, " ")
+}
 
 func (x *Exec) checkInvs(st *State, lc *loopCtx, phase string) {
 	if lc.spec == nil {
